@@ -63,20 +63,32 @@ wstran_pipe_send_cb(void *arg)
 	ws_pipe *p    = arg;
 	nni_aio *taio = &p->txaio;
 	nni_aio *uaio;
+	nni_msg *msg;
 
 	nni_mtx_lock(&p->mtx);
 	uaio          = p->user_txaio;
 	p->user_txaio = NULL;
 
+	// The websocket layer consumes the message only when the send
+	// succeeds; after a failure it is still attached to our aio.
+	msg = nni_aio_get_msg(taio);
+	nni_aio_set_msg(taio, NULL);
+
 	if (uaio != NULL) {
 		int rv;
 		if ((rv = nni_aio_result(taio)) != 0) {
+			// Hand it back, the caller owns it on failure.
+			nni_aio_set_msg(uaio, msg);
+			msg = NULL;
 			nni_aio_finish_error(uaio, rv);
 		} else {
 			nni_aio_finish(uaio, 0, 0);
 		}
 	}
 	nni_mtx_unlock(&p->mtx);
+
+	// The user aio was canceled already: nobody else owns the message.
+	nni_msg_free(msg);
 }
 
 static void
